@@ -375,7 +375,11 @@ func checkPrefixDecode(rep *Reporter, p string, maxLen int, data []byte) {
 	line := fmt.Sprintf("P %s dec %d %s", p, maxLen, gen.H(data))
 	safely(rep, line, func() {
 		pr := impl.Prefixer(p)
-		n, read, err := pr.DecodeLength(maxLen, data)
+		in := append([]byte{}, data...)
+		n, read, err := pr.DecodeLength(maxLen, in)
+		if !bytes.Equal(in, data) {
+			rep.Viol("DecodeLength modified the bytes it was given", line, fmt.Sprintf("before %x after %x", data, in))
+		}
 		w, _ := prefWidthAlphabet(p)
 		key := ""
 		if err == nil {
